@@ -436,7 +436,13 @@ func cmpBool(op token.Token, a, b Lin) BoolV {
 	return BoolV{}
 }
 
+// negWeak: the negation of a one-sided fact whose own negation is the fact.
+func negWeak(w BoolV) BoolV { return BoolV{NegOf: &w} }
+
 func negBool(b BoolV) BoolV {
+	if b.NegOf != nil {
+		return *b.NegOf
+	}
 	switch b.Known {
 	case 1:
 		return BoolV{Known: 2}
@@ -444,6 +450,9 @@ func negBool(b BoolV) BoolV {
 		return BoolV{Known: 1}
 	}
 	if b.IsB {
+		if b.Weak {
+			return BoolV{}
+		}
 		b.BTrue = b.BTrue.not()
 		return b
 	}
@@ -574,7 +583,12 @@ func (e *Engine) binop(st *State, fr *Frame, x *ssa.BinOp) AVal {
 				}
 				return BoolV{Known: 1}
 			}
-			return BoolV{}
+			// equal bytes: the right one takes a value the left one can have (one-sided)
+			w := BoolV{IsB: true, BRoot: bb.Root, BIdx: bb.Idx, BTrue: ma, Weak: true}
+			if x.Op == token.NEQ {
+				return negWeak(w)
+			}
+			return w
 		}
 	}
 	if _, isStr := a.(StrV); !isStr {
